@@ -198,6 +198,15 @@ def oracle_step(pre, op, post, ret, err, extra):
         return v
     if consistent(pre):
         return v        # already inconsistent before this operation: reported where it broke
+    if k == 'Reset' and op['rb'] and not err:
+        # reset restores the initial grid (checked on its own, also when the result is not even consistent)
+        exp = own_linspace(pre['omin'], pre['omax'], pre['obins'])
+        if (post['min'], post['max'], post['bins']) != (pre['omin'], pre['omax'], pre['obins']) \
+           or len(post['bounds']) != len(exp) or any(abs(x - y) > 1e-13 * abs(y) for x, y in zip(post['bounds'], exp)) \
+           or any(x != 0 for x in post['psd']):
+            v.append(('reset_restores', 'grid', 'reset gives %d classes with boundaries %r .. %r, min/max %r/%r (PSD total %r); the initial grid has %d classes on [%r, %r]'
+                      % (post['bins'], post['bounds'][0] if post['bounds'] else None, post['bounds'][-1] if post['bounds'] else None,
+                         post['min'], post['max'], sum(post['psd']), pre['obins'], pre['omin'], pre['omax'])))
     bad = consistent(post)
     if bad:
         v.append(('consistent', k, 'after %s: %s' % (k, bad)))
@@ -223,13 +232,6 @@ def oracle_step(pre, op, post, ret, err, extra):
                       % (pre['bins'], pre['min'], pre['max'], post['bins'], post['min'], post['max'], a, b_)))
     if k == 'Adjust' and pre['adaptive'] and pre['minBins'] <= pre['maxBins'] and post['bins'] > pre['maxBins']:
         v.append(('adjust_le_max', 'adaptive', 'automatic adjustment left %d classes, maximum is %d' % (post['bins'], pre['maxBins'])))
-    if k == 'Reset' and op['rb']:
-        exp = own_linspace(pre['omin'], pre['omax'], pre['obins'])
-        if (post['min'], post['max'], post['bins']) != (pre['omin'], pre['omax'], pre['obins']) \
-           or len(post['bounds']) != len(exp) or any(abs(x - y) > 1e-13 * abs(y) for x, y in zip(post['bounds'], exp)) \
-           or any(x != 0 for x in post['psd']):
-            v.append(('reset_restores', 'grid', 'reset gives %d classes on [%r, %r] (PSD total %r), initial grid has %d on [%r, %r]'
-                      % (post['bins'], post['min'], post['max'], sum(post['psd']), pre['obins'], pre['omin'], pre['omax'])))
     return v
 
 
@@ -243,6 +245,14 @@ def oracle_trace(trace):
 
 # ------------------------------------------------------------------------------------------
 # generators
+def tie_bins(rng, bins, mb, xb):
+    """a third of the configurations start with exactly minBins or maxBins classes: the automatic re-mesh
+    (onto minBins when coarsening, onto maxBins after dissolution) then lands on the INITIAL class count
+    with a different range - the case in which 'same number of classes' and 'same grid' come apart"""
+    u = rng.random()
+    return mb if u < 0.2 else xb if u < 0.35 else bins
+
+
 def gen_cfg(rng, quick):
     if rng.random() < 0.4:
         cmin = float(rng.choice([0, 1, 2, 4, 0.5]))
@@ -250,6 +260,7 @@ def gen_cfg(rng, quick):
         bins = int(rng.choice([1, 2, 3, 4, 8, 16]))
         mb = int(rng.choice([2, 4, 8]))
         xb = mb * int(rng.choice([1, 2, 4]))
+        bins = tie_bins(rng, bins, mb, xb)
         return {'kind': 'dyadic', 'cMin': cmin, 'cMax': cmax, 'bins': bins, 'minBins': mb, 'maxBins': xb}
     cmin = float(10 ** rng.uniform(-10.5, -8.5))
     cmax = cmin * float(10 ** rng.uniform(0.0, 2.0))
@@ -257,6 +268,7 @@ def gen_cfg(rng, quick):
     bins = int(rng.integers(1, top + 1))
     mb = int(rng.integers(2, 17 if quick else 41))
     xb = mb + int(rng.integers(0, 25 if quick else 61))
+    bins = tie_bins(rng, bins, mb, xb)
     return {'kind': 'physical', 'cMin': cmin, 'cMax': cmax, 'bins': bins, 'minBins': mb, 'maxBins': xb}
 
 
@@ -310,11 +322,21 @@ def gen_op(rng, st, dyadic, quick):
         return [{'op': 'Adjust', 'chk': True}, {'op': 'Backup'}, {'op': 'Revert'}, {'op': 'Reset', 'rb': False}][int(rng.integers(0, 4))]
 
 
+def moved_same_count(st):
+    """the grid has the initial number of classes but is not the initial grid"""
+    return st['bins'] == st['obins'] and (st['min'], st['max']) != (st['omin'], st['omax'])
+
+
 def gen_op_(rng, st, dyadic, quick):
     n = st['bins']
     cap = 64 if quick else 100
+    if moved_same_count(st) and rng.random() < 0.3:
+        # reset paths on a grid that only shares the class count with the initial one
+        if rng.random() < 0.7:
+            return {'op': 'Reset', 'rb': True}
+        return {'op': 'Change', 'cmin': st['min'], 'cmax': st['max'], 'nb': None if rng.random() < 0.5 else st['obins'], 'reset': True}
     names = ['Adjust', 'Update', 'LoadFn', 'Change', 'Add', 'Backup', 'Revert', 'Reset', 'LoadHist', 'SetAdaptive', 'Moments']
-    p = np.array([0.22, 0.14, 0.14, 0.14, 0.09, 0.05, 0.06, 0.03, 0.05, 0.03, 0.05])
+    p = np.array([0.22, 0.14, 0.14, 0.14, 0.09, 0.05, 0.06, 0.04, 0.05, 0.03, 0.05])
     k = str(rng.choice(names, p=p / p.sum()))
     if k == 'Add' and n > cap:
         k = 'Change'
@@ -354,7 +376,15 @@ def gen_op_(rng, st, dyadic, quick):
                                 p=[0.4, 0.25, 0.25, 0.1]))
     if not (cmin > 0 or cmax > cmin):
         cmax = cmin + 1.0
-    nb = None if rng.random() < 0.2 else int(rng.choice([1, 2, 3, int(rng.integers(1, 41)), st['minBins'], st['maxBins'], max(1, n // 3), min(cap, 2 * n)]))
+    u = rng.random()
+    if u < 0.25:
+        nb = None                                   # bins argument left at its default: class count kept
+    elif u < 0.4:
+        nb = int(rng.choice([n, st['obins']]))      # explicitly the current / the initial class count
+    else:
+        nb = int(rng.choice([1, 2, 3, int(rng.integers(1, 41)), st['minBins'], st['maxBins'], max(1, n // 3), min(cap, 2 * n)]))
+    if nb is not None and nb > cap:
+        nb = cap
     return {'op': k, 'cmin': cmin, 'cmax': cmax, 'nb': nb, 'reset': bool(rng.random() < 0.1)}
 
 
@@ -615,6 +645,8 @@ def explore(ctx, seqs, label):
             ctx.hist('operation', op['op'])
             ctx.hist('classes', '1' if pre['bins'] == 1 else '2-3' if pre['bins'] <= 3 else '4-16' if pre['bins'] <= 16 else '17-64' if pre['bins'] <= 64 else '>64')
             ctx.hist('adaptive', pre['adaptive'])
+            if moved_same_count(pre):
+                ctx.hist('initial_class_count_on_moved_grid', op['op'] + (':reset' if op.get('rb') or op.get('reset') else ''))
             if op['op'] == 'Adjust':
                 s1bins = pre['bins'] + (pre['obins'] // 4 if pre['psd'] and pre['psd'][-1] > 1 else 0)
                 ctx.hist('adjust_outcome', 'raised ' + str(err) if err else
@@ -653,6 +685,11 @@ def run_eligible(trace):
             return False
         if any(x != 0 and abs(x - 1) < 1e-6 for x in pre['psd'] + post['psd']):
             return False
+        if op['op'] == 'Change' and not op['reset']:
+            b = pre['bounds']
+            near = lambda x, l: any(abs(x - y) <= 1e-9 * abs(y) for y in l)
+            if near(op['cmin'], b[1:]) or near(op['cmax'], b[:-1]) or near(10 * op['cmin'], b[:-1]):
+                return False    # new range ends on a (rounded) old boundary: the class beyond it shares a sliver or not
         if op['op'] == 'LoadHist' and any(abs(x - b) <= 1e-9 * abs(b) for x in op['data'] for b in pre['bounds']):
             return False        # a sample on a (rounded) class boundary is counted on the other side by exact boundaries
         for st in (pre, post):
@@ -698,7 +735,7 @@ def run(ctx):
     ctx.cov['rule'] = ('operation sequences (Reset, Add, Change, Adjust, Update, Backup, Revert, LoadFn, LoadHist, SetAdaptive, moment '
                        'calls) of length <= 40 (quick) / <= 400 (thorough) on a live PopulationBalanceModel, configurations dyadic (exact '
                        'binary64 arithmetic) or physical (1e-10 m scale), populations zero / single class / log-normal / sparse / huge '
-                       'range / near the threshold 1 / low classes only / last class filled; one evaluation = one operation compared '
+                       'range / near the threshold 1 / low classes only / last class filled; a third of the configurations start with bins == minBins or bins == maxBins and 40 % of the re-meshes keep the current / initial class count, followed by reset paths; one evaluation = one operation compared '
                        'with the model; non-trivial = acts on a populated distribution, changes the grid or loads a distribution; '
                        'distinct by hash of (configuration, exact pre-state, exact operation)')
     axioms, failed = ctx.prove(['C08/Properties.v'])
